@@ -103,10 +103,29 @@ Theorem C03_altered_rejected :
 Proof. exact altered_rejected. Qed.
 Print Assumptions C03_altered_rejected.
 
+(* The issuer designation of a certificate is not covered by the certificate's signature. A
+   frame is not delivered when every certificate its signer field can designate is not itself a
+   configured root and is rejected by the oracle under the key of every certificate its issuer
+   field designates - whatever frames were received before (the same to-be-signed bytes and
+   signature under another designation among them) and whatever the oracle says about that
+   signature under any other key, the certificate's own included. *)
+Theorem C03_relabelled_issuer_dropped :
+  forall (hash8 : cert -> Z) (sig_ok : Z -> Z -> Z -> bool) (sign : Z -> Z -> Z) (enc_tbs : tbsdata -> Z)
+         (ops fs : list op) (vs vo : bool) (nh body : Z) (m : msg),
+    Forall is_rx fs ->
+    (forall c, signer_names hash8 (m_signer m) c ->
+               ~ In c (configured_roots hash8 sig_ok ops) /\
+               forall i, cissuer c = IssDigest (hash8 i) -> sig_ok (ckey i) (ctbs c) (csig c) = false) ->
+    forall p, snd (rx hash8 sig_ok (final hash8 sig_ok sign enc_tbs init_station (ops ++ fs)) true vs vo nh body m)
+              <> RDeliver p.
+Proof. exact relabelled_issuer_dropped. Qed.
+Print Assumptions C03_relabelled_issuer_dropped.
+
 (* ---- non-vacuity ---- *)
 Definition ex_sig (k t s : Z) : bool :=
   table_sig_ok [(1, 101, 201); (1, 102, 202); (2, 103, 203); (3, 900, 950);
-                (5, 105, 205); (5, 106, 206); (6, 107, 207); (7, 901, 951)] k t s.
+                (5, 105, 205); (5, 106, 206); (6, 107, 207); (7, 901, 951);
+                (8, 108, 208); (8, 903, 953)] k t s.
 Definition ex_root := mkCert 1 11 IssSelf false (Some [36]) (Some [mkPE PAll 2]) 0 1000 1 201 101 true true.
 Definition ex_aa := mkCert 2 12 (IssDigest 11) false (Some [36]) (Some [mkPE (PExplicit [36; 37]) 1]) 0 1000 2 202 102 true true.
 Definition ex_at := mkCert 3 13 (IssDigest 12) true (Some [36; 37]) None 100 900 3 203 103 true true.
@@ -114,6 +133,10 @@ Definition ex_at := mkCert 3 13 (IssDigest 12) true (Some [36; 37]) None 100 900
 Definition ex_xroot := mkCert 5 15 IssSelf false (Some [36]) (Some [mkPE PAll 2]) 0 1000 5 205 105 true true.
 Definition ex_xaa := mkCert 6 16 (IssDigest 15) false (Some [36]) (Some [mkPE PAll 1]) 0 1000 6 206 106 true true.
 Definition ex_xat := mkCert 7 17 (IssDigest 16) true (Some [36; 37]) None 100 900 7 207 107 true true.
+(* a 'ticket' signed with its own key (oracle fact (8, 108, 208)): shown as self-signed, and the same
+   to-be-signed bytes and signature re-labelled as issued by the genuine authority *)
+Definition ex_oat_self := mkCert 8 18 IssSelf true (Some [36; 37]) None 100 900 8 208 108 true true.
+Definition ex_oat_aa := mkCert 9 19 (IssDigest 12) true (Some [36; 37]) None 100 900 8 208 108 true true.
 Definition ex_ops := [OAddRoot ex_root None; OAddAA ex_aa (Some ex_root)].
 Definition ex_frame (sg : signer) (tbs sig : Z) :=
   mkMsg true sg (mkTbs 36 (Some 500) false false false false false None None 7) tbs sig.
@@ -132,5 +155,11 @@ Example C03_example :
   snd (ex_rx sn 2 (ex_frame (SCerts [ex_xat]) 901 951)) = RDrop /\
   (* after the genuine frame was received the digest form is delivered as well, the forged one still is not *)
   snd (ex_rx (fst (ex_rx sn 2 (ex_frame (SCerts [ex_at]) 900 950))) 2 (ex_frame (SDigest 13) 900 950)) = RDeliver 7 /\
-  snd (ex_rx (fst (ex_rx sn 2 (ex_frame (SCerts [ex_xat]) 901 951))) 2 (ex_frame (SDigest 17) 901 951)) = RDrop.
+  snd (ex_rx (fst (ex_rx sn 2 (ex_frame (SCerts [ex_xat]) 901 951))) 2 (ex_frame (SDigest 17) 901 951)) = RDrop /\
+  (* a ticket signed with its own key: dropped as self-signed, and dropped again - certificate and digest form - when
+     the same bytes and signature are shown afterwards as issued by the genuine authority *)
+  snd (ex_rx sn 2 (ex_frame (SCerts [ex_oat_self]) 903 953)) = RDrop /\
+  (let sn1 := fst (ex_rx sn 2 (ex_frame (SCerts [ex_oat_self]) 903 953)) in
+   snd (ex_rx sn1 2 (ex_frame (SCerts [ex_oat_aa]) 903 953)) = RDrop /\
+   snd (ex_rx (fst (ex_rx sn1 2 (ex_frame (SCerts [ex_oat_aa]) 903 953))) 2 (ex_frame (SDigest 19) 903 953)) = RDrop).
 Proof. vm_compute. repeat split. Qed.
